@@ -4,7 +4,7 @@ from ..graph import Graph
 from ..expr import access_path, path_str, reaching_defs, norm_cond, origins, leaves, defs_in_node
 from ..linear import linear, relation, fmt
 from ..charclass import byteset, describe
-from .common import strip_casts, short, comparison, once_init
+from .common import strip_casts, short, comparison, once_init, FLIP, gated_by, scenario_sources, same_class_inline
 from . import c09
 
 UNITS = []
@@ -33,61 +33,124 @@ def rule_r1(ck, prog, rule='C16.R1', injectors=INJECTORS):
         f = prog.function(fname)
         whole = [n for n in f.nodes if n['k'] == 'call' and strip_targs(n.get('c', '')) in
                  ('opentelemetry::trace::TraceFlags::ToLowerBase16', 'opentelemetry::trace::TraceFlags::flags')]
-        conds = [n for n in f.nodes if n['k'] == 'cond']
-        ok = not whole and len(conds) == 1
-        why = 'the injector reads the whole flags byte (%s)' % strip_targs(whole[0]['c']).rsplit('::', 1)[-1] if whole else 'no IsSampled() ? 1 : 0 expression'
+        # the value that reaches the sampling field, per scenario IsSampled() = true / false (conditional expressions, if/else,
+        # named locals and private helper functions are resolved by the scenario analysis)
+        g = Graph(prog, f, inline=lambda caller, call, callee, depth: callee.qn.startswith(('opentelemetry::trace::propagation::', 'canary::c16::')) and not call.get('virt'),
+                  sync_lambdas=False, max_depth=2)
+        sink = None
+        if pos is not None:
+            for n in f.nodes:
+                if n['k'] == 'binop' and n['op'] == '=' and f.nodes[n['lhs']]['k'] == 'subscript' and f.nodes[f.nodes[n['lhs']]['index']].get('v') == pos:
+                    sink = n['rhs']
+        else:
+            for n in f.nodes:
+                if n['k'] == 'call' and n.get('virt') and strip_targs(n.get('c', '')).endswith('TextMapCarrier::Set') and len(n.get('args', [])) == 2 and \
+                        any(f.nodes[k]['k'] == 'ref' and 'Sampled' in f.nodes[k].get('name', '') for k in f.subtree(n['args'][0])):
+                    refs = [k for k in f.subtree(n['args'][1]) if f.nodes[k]['k'] == 'ref' and f.nodes[k].get('sk') == 'local']
+                    sink = refs[0] if refs else n['args'][1]
+        if sink is None:
+            # canary / unknown layout: any conditional expression that selects the field value
+            conds = [n for n in f.nodes if n['k'] == 'cond']
+            sink = conds[0]['i'] if conds else None
+
+        def atom_role(ff, cnd, ctx):
+            core, pol = norm_cond(ff, cnd)
+            cn = strip_casts(ff, core)
+            if cn['k'] == 'call' and strip_targs(cn.get('c', '')).rsplit('::', 1)[-1] == 'IsSampled':
+                return 'sampled', pol
+            return None, pol
+
+        def classify(ff, n, ctx):
+            if n['k'] == 'lit' and 'v' in n:
+                return 'lit:%d' % n['v']
+            return None
+        ok = not whole and sink is not None
+        why = 'the injector reads the whole flags byte (%s)' % strip_targs(whole[0]['c']).rsplit('::', 1)[-1] if whole else 'the value written to the sampling field was not found'
         if ok:
-            c = conds[0]
-            core, pol = norm_cond(f, c['cnd'])
-            cn = f.nodes[core]
-            is_s = cn['k'] == 'call' and strip_targs(cn.get('c', '')).rsplit('::', 1)[-1] == 'IsSampled'
-            a, b = (c['a'], c['b']) if pol else (c['b'], c['a'])
-            lits = (strip_casts(f, a).get('v'), strip_casts(f, b).get('v'))
-            ok = is_s and lits == (ord('1'), ord('0'))
-            why = 'the sampling field is not IsSampled() ? \'1\' : \'0\''
-        ck.verdict(ok, rule, f, 'sampled-field-from-decision', (whole or conds or [None])[0],
+            got_t = scenario_sources(g, f, sink, g.root_ctx, {'sampled': True}, atom_role, classify)
+            got_f = scenario_sources(g, f, sink, g.root_ctx, {'sampled': False}, atom_role, classify)
+            ok = got_t == {'lit:%d' % ord('1')} and got_f == {'lit:%d' % ord('0')}
+            why = 'the sampling field is not IsSampled() ? \'1\' : \'0\' (sampled: %s, not sampled: %s)' % (sorted(got_t), sorted(got_f))
+        ck.verdict(ok, rule, f, 'sampled-field-from-decision', (whole or [f.nodes[sink] if sink is not None else None])[0],
                    'sampling field = IsSampled() ? 1 : 0' if ok else
                    '%s: %s: a context with other flag bits set is injected with a sampling value the extractor does not read back as the same decision' % (short(f), why))
     # extract side
-    f = prog.function('trace::propagation::JaegerPropagator::GetTraceFlags')
-    ands = [n for n in f.nodes if n['k'] == 'binop' and n['op'] == '&']
-    others = [n for n in f.nodes if n['k'] in ('cond', 'if') or (n['k'] == 'binop' and n['op'] in ('|', '>>', '<<', '||', '&&', '!=', '=='))]
-    ok = len(ands) == 1 and not others and (f.nodes[ands[0]['rhs']].get('v') == 1 or f.nodes[ands[0]['lhs']].get('v') == 1)
-    ck.verdict(ok, rule, f, 'jaeger-mask', ands[0] if ands else None, 'flags & 0x01' if ok else
+    # the flags of the context the Jaeger extractor builds are (decoded flags & 0x01), wherever that is computed (a private helper
+    # such as GetTraceFlags is inlined): follow the third constructor argument of the success return to its source
+    f = prog.function('trace::propagation::JaegerPropagator::ExtractImpl')
+    g = Graph(prog, f, inline=same_class_inline(prog, f.cls), sync_lambdas=False, max_depth=2)
+    rd = reaching_defs(g)
+    succ = [p for p in g.points if p.n is not None and p.ctx is g.root_ctx and p.n['k'] == 'construct' and strip_targs(p.n.get('c', '')).endswith('SpanContext::SpanContext') and len(p.n.get('args', [])) >= 4]
+    ok = len(succ) == 1
+    mask_node = None
+    if ok:
+        def mask_sources(ff, idx, ctx, depth=0):
+            """(func, node) of the bit-level expressions the flags value is computed from, through conversions into TraceFlags"""
+            out = []
+            for (sf, sn, sc) in origins(g, rd, ff, idx, ctx):
+                a1 = [a for a in sn.get('args', []) if a is not None and a >= 0] if sn['k'] in ('construct', 'call') else []
+                if sn['k'] == 'construct' and len(a1) == 1 and depth < 5:
+                    out += mask_sources(sf, a1[0], sc, depth + 1)
+                else:
+                    out.append((sf, sn))
+            return out
+        srcs = mask_sources(f, succ[0].n['args'][2], g.root_ctx)
+        ok = len(srcs) == 1
+        if ok:
+            sf, sn = srcs[0]
+            mask_node = sn
+            ok = sn['k'] == 'binop' and sn['op'] == '&' and (strip_casts(sf, sn['rhs']).get('v') == 1 or strip_casts(sf, sn['lhs']).get('v') == 1)
+    ck.verdict(ok, rule, f, 'jaeger-mask', mask_node or (succ[0].n if succ else None), 'flags & 0x01' if ok else
                'the Jaeger extractor does not derive the sampled flag as (flags & 0x01): other bits (e.g. the debug bit) turn into a sampled decision')
     f = prog.function('trace::propagation::B3PropagatorExtractor::TraceFlagsFromHex')
     g = Graph(prog, f, inline=None, sync_lambdas=False)
     rd = reaching_defs(g)
     rets = g.returns()
-    sampled = [r for r in rets if any(f.nodes[i].get('v') == 1 and f.nodes[i]['k'] in ('ref', 'lit', 'member') for i in f.subtree(r.n['e']))]
+    sampled = {r.n['i'] for r in rets if any(f.nodes[i].get('v') == 1 and f.nodes[i]['k'] in ('ref', 'lit', 'member') for i in f.subtree(r.n['e']))}
     subj = lambda i: f.nodes[i]['k'] == 'call' and f.nodes[i].get('op') == '[]' and f.nodes[i].get('args') and f.nodes[f.nodes[i]['args'][0]].get('v') == 0
-    # the rejecting condition: length != 1 || (c != '1' && c != 'd')
-    conds = [n for n in f.nodes if n['k'] == 'if']
-    ok = len(conds) == 1 and len(sampled) == 1
-    bs = None
-    if ok:
-        cnd = f.nodes[conds[0]['cnd']]
-        parts = []
-        def flat(i):
-            n = f.nodes[i]
-            if n['k'] == 'binop' and n['op'] == '||':
-                flat(n['lhs']); flat(n['rhs'])
-            else:
-                parts.append(i)
-        flat(conds[0]['cnd'])
-        len_ok = False
-        for pt in parts:
-            c = comparison(f, pt)
-            if c and c[0] == '!=' and f.nodes[c[2]].get('v') == 1 and any(strip_targs(f.nodes[i].get('c', '')).rsplit('::', 1)[-1] in ('length', 'size') for i in f.subtree(c[1]) if f.nodes[i]['k'] == 'call'):
-                len_ok = True
-            elif any(subj(i) for i in f.subtree(pt)):
-                rej = byteset(f, pt, subj)
-                bs = frozenset(range(256)) - rej if rej is not None else None
-        # the rejecting branch returns unsampled, the fall-through returns sampled
-        rej_ret = [f.nodes[i] for i in f.subtree(conds[0]['th']) if f.nodes[i]['k'] == 'return']
-        ok = len_ok and bs == frozenset([ord('1'), ord('d')]) and bool(rej_ret) and not any(f.nodes[i].get('v') == 1 for i in f.subtree(rej_ret[0]['i']) if f.nodes[i]['k'] in ('lit', 'ref'))
-    ck.verdict(ok, rule, f, 'b3-sampled-values', conds[0] if conds else None, 'sampled <=> one character in %s' % describe(bs) if ok else
-               'B3 maps the sampling field to sampled for %s with the length test %s: documented is exactly one character, \'1\' or \'d\'' % (describe(bs), 'present' if ok else 'missing/changed'))
+    # exhaustive table: for every length class (0, 1, 2) and every value of the first byte the comparisons of the function are
+    # evaluated concretely (pinned) and the feasible returns are collected: sampled <=> exactly one character, '1' or 'd'
+    from ..symb import explore_pinned
+    import operator
+    OPS = {'==': operator.eq, '!=': operator.ne, '<': operator.lt, '<=': operator.le, '>': operator.gt, '>=': operator.ge}
+    cmps = []
+    for n in f.nodes:
+        c = comparison(f, n['i'])
+        if not c:
+            continue
+        op, l, r = c
+        ln, rn = strip_casts(f, l), strip_casts(f, r)
+        if 'v' in ln and 'v' not in rn:
+            op, l, r, ln, rn = FLIP[op], r, l, rn, ln
+        if 'v' not in rn:
+            continue
+        if subj(ln['i']):
+            cmps.append((n['i'], 'byte', op, rn['v']))
+        elif ln['k'] == 'call' and strip_targs(ln.get('c', '')).rsplit('::', 1)[-1] in ('length', 'size') and ln.get('obj') is not None and \
+                strip_casts(f, ln['obj']).get('id') == f.params[0]['id']:
+            cmps.append((n['i'], 'len', op, rn['v']))
+        elif ln['k'] == 'call' and strip_targs(ln.get('c', '')).rsplit('::', 1)[-1] == 'empty':
+            pass
+    accept = set()
+    open_cases = []
+    for length in (0, 1, 2):
+        for b in range(256):
+            pins = {ni: OPS[op](b if kind == 'byte' else length, v) for (ni, kind, op, v) in cmps}
+            for n in f.nodes:
+                if n['k'] == 'call' and strip_targs(n.get('c', '')).rsplit('::', 1)[-1] == 'empty' and n.get('obj') is not None and strip_casts(f, n['obj']).get('id') == f.params[0]['id']:
+                    pins[n['i']] = (length == 0)
+            rets_, _ = explore_pinned(g, pins)
+            outs = {ri in sampled for (ri, _v, _e) in rets_ if ri is not None}
+            if outs == {True}:
+                accept.add((length, b))
+            elif outs != {False}:
+                open_cases.append((length, b))
+    want_acc = {(1, ord('1')), (1, ord('d'))}
+    ok = bool(cmps) and accept == want_acc and not open_cases
+    got = sorted(accept)[:6]
+    ck.verdict(ok, rule, f, 'b3-sampled-values', rets[0].n if rets else None, "sampled <=> exactly one character, '1' or 'd' (768-row table over length class x first byte)" if ok else
+               'B3 maps the sampling field to sampled for (length, first byte) in %s%s: documented is exactly one character, \'1\' or \'d\'' %
+               ([(l_, chr(b_) if 32 <= b_ < 127 else b_) for (l_, b_) in got], ' (undecided for %d cases)' % len(open_cases) if open_cases else ''))
 
 
 def rule_r3(ck, prog, rule='C16.R3'):
@@ -104,7 +167,7 @@ def rule_r3(ck, prog, rule='C16.R3'):
                 return (lab[2] if pol else not lab[2]) is True
             return False
         sets = g.calls('trace::SetSpan')
-        ok = bool(sets) and all(g.must_pass_edge(p, valid_edge) for p in sets)
+        ok = bool(sets) and gated_by(g, sets, lambda ff, cn: strip_targs(cn.get('c', '')).endswith('SpanContext::IsValid'))[0]
         ck.verdict(ok, rule, f, 'install-only-valid', sets[0].n if sets else None, 'SetSpan only behind IsValid()' if ok else 'an invalid extracted context can be installed')
         other = [r for r in g.returns() if not any(f.nodes[i]['k'] == 'call' and strip_targs(f.nodes[i].get('c', '')).endswith('trace::SetSpan') for i in f.subtree(r.n['e']))]
         ok = bool(other) and all(strip_casts(f, r.n['e']).get('id') == f.params[1]['id'] for r in other)
@@ -165,7 +228,7 @@ def rule_r3(ck, prog, rule='C16.R3'):
             if cn['k'] == 'call' and strip_targs(cn.get('c', '')).endswith(_nm + '::IsValid'):
                 return (lab[2] if pol else not lab[2]) is True
             return False
-        ok = bool(succ) and all(g.must_pass_edge(r, ve) for r in succ)
+        ok = bool(succ) and gated_by(g, succ, lambda ff, cn, _nm=nm: strip_targs(cn.get('c', '')).endswith(_nm + '::IsValid'))[0]
         ck.verdict(ok, rule, f, 'b3-%s-valid' % nm.lower(), succ[0].n if succ else None, '%s non-zero' % nm if ok else 'B3 accepts an all-zero %s' % nm)
     # Jaeger: every HexToBinary checked
     f = prog.function('trace::propagation::JaegerPropagator::ExtractImpl')
@@ -180,7 +243,7 @@ def rule_r3(ck, prog, rule='C16.R3'):
                     return False
                 core, pol = norm_cond(lab[1], lab[0])
                 return core == _h.n['i'] and (lab[2] if pol else not lab[2]) is True
-            if not all(g.must_pass_edge(r, hok) for r in succ):
+            if not gated_by(g, succ, lambda ff, cn, _h=h: cn is _h.n)[0]:
                 ok = False
     ck.verdict(ok, rule, f, 'jaeger-decodes-checked', hb[0].n if hb else None, 'every HexToBinary result is checked' if ok else 'a Jaeger field is decoded without checking that it fits (over-long ids are silently zeroed or truncated)')
     fc = [n for n in f.nodes if n['k'] == 'call' and strip_targs(n.get('c', '')).endswith('SplitString')]
@@ -294,12 +357,18 @@ def rule_r4_view_subscripts(ck, prog, rule='C16.R4', prefix='opentelemetry::trac
                     core, pol = norm_cond(lab[1], lab[0])
                     cn = once_init(lab[1], core)
                     c = comparison(lab[1], cn['i']) if 'i' in cn else None
-                    if c and c[0] == '==' and strip_casts(lab[1], c[2]).get('v') == 1:
+                    odd_when = None      # truth value of the comparison that means "size is odd"
+                    m = None
+                    if c and c[0] in ('==', '!=') and strip_casts(lab[1], c[2]).get('v') in (0, 1):
                         m = strip_casts(lab[1], c[1])
-                        if m['k'] == 'binop' and m['op'] == '%' and strip_casts(lab[1], m['rhs']).get('v') == 2:
-                            ml = linear(g, rd, lab[1], m['lhs'], a.ctx)
-                            if ml == {size_sym: 1}:
-                                return (lab[2] if pol else not lab[2]) is True
+                        odd_when = (c[0] == '==') == (strip_casts(lab[1], c[2]).get('v') == 1)
+                    elif cn['k'] == 'binop' and cn['op'] in ('%', '&'):
+                        m, odd_when = cn, True       # `if (size % 2)`
+                    if m is not None and m['k'] == 'binop' and ((m['op'] == '%' and strip_casts(lab[1], m['rhs']).get('v') == 2) or
+                                                               (m['op'] == '&' and strip_casts(lab[1], m['rhs']).get('v') == 1)):
+                        ml = linear(g, rd, lab[1], m['lhs'], a.ctx)
+                        if ml == {size_sym: 1}:
+                            return (lab[2] if pol else not lab[2]) is odd_when
                 return False
             ok = g.must_pass_edge(p, implies)
             ck.verdict(ok, rule, f, site, n, 'index %s is behind a guard that implies it is below %s' % (pretty(fmt(lin)), pretty(size_sym)) if ok else
